@@ -9,7 +9,17 @@
                     image by `sub_image` (C09_sub_image_wf)
      d_pixel        pixel() of ImageRaw (the real code), extended to SubImages by re-basing (specification)
      d_draw         the fill_contiguous calls `draw` makes; ContiguousPixels is modelled as the list it yields
-     render bb cs q the colour the calls cs leave at q on a target with bounding box bb (None = untouched)  *)
+     render bb cs q the colour the calls cs leave at q on a target with bounding box bb (None = untouched)
+   Ranges in which the unbounded model equals the i32/u32 code (each is implied by rect_ok / point_ok + size_ok,
+   i.e. |coordinates| <= 2^29 and extents <= 2^29: C09_ranges_from_rect_ok):
+     offset_fits o s    a box of size s at o stays inside the i32 space (no saturation in Rectangle::points)
+     area_fits a        a sub image area: zero sized, or extents <= i32::MAX and top_left + size <= i32::MAX
+                        (bottom_right computable: core rectangle/mod.rs:137, point.rs:275-282; beyond it, e.g. width
+                        2^31, `sub_image` panics with debug assertions at point.rs:279 and C09 makes no claim)
+     with_center_fits   `center - (size-1)/2` does not leave i32
+     direct_area_fits   for a DIRECT ImageDrawable::draw_sub_image call: the u32 sums `x as u32 + width`,
+                        `y as u32 + height` of image_raw.rs:229-230 do not overflow (areas made by sub_image always
+                        satisfy it; area (1,0) 4294967295 x 1 does not: panic at image_raw.rs:229)  *)
 From EG Require Import Base.Prelude Model.Geometry Proofs.Geometry Model.Imageraw Proofs.Imageraw.
 
 (* ImageRaw::new accepts exactly the buffers of bytes_per_row(width) * height bytes *)
@@ -17,6 +27,14 @@ Theorem C09_new_ok_iff : forall bpp alt data s,
   (exists img, raw_new bpp alt data s = inl img) <->
   Z.of_nat (length data) = bytes_per_row (sw s) bpp * sh s.
 Proof. exact new_ok_iff. Qed.
+
+(* new_const: the same image as `new` for the exact length, a panic (None) for every other length *)
+Theorem C09_new_const_spec : forall bpp alt data s,
+  (Z.of_nat (length data) = bytes_per_row (sw s) bpp * sh s ->
+     raw_new_const bpp alt data s = Some (IR data s bpp alt) /\ raw_new bpp alt data s = inl (IR data s bpp alt)) /\
+  (Z.of_nat (length data) <> bytes_per_row (sw s) bpp * sh s ->
+     raw_new_const bpp alt data s = None /\ raw_new bpp alt data s = inr (bytes_per_row (sw s) bpp * sh s)).
+Proof. exact new_const_spec. Qed.
 
 Theorem C09_new_gives_img_ok : forall bpp alt data s img,
   bpp_ok bpp -> size_ok s -> raw_new bpp alt data s = inl img -> img_ok img.
@@ -50,6 +68,23 @@ Theorem C09_image_draw_spec : forall d o bb q,
   if contains bb q && contains (image_box (Img d o)) q then d_pixel d (psub q o) else None.
 Proof. exact image_draw_spec. Qed.
 
+(* the same under the exact range condition (zero sized drawables draw nothing wherever they are placed) *)
+Theorem C09_image_draw_spec_fits : forall d o bb q,
+  d_wf d -> is_zero_sized (d_box d) = true \/ offset_fits o (d_size d) ->
+  render bb (image_draw (Img d o)) q =
+  if contains bb q && contains (image_box (Img d o)) q then d_pixel d (psub q o) else None.
+Proof. exact image_draw_spec_fits. Qed.
+
+Theorem C09_ranges_from_rect_ok :
+  (forall a, rect_ok a -> area_fits a) /\
+  (forall o s, point_ok o -> size_ok s -> offset_fits o s) /\
+  (forall c s, point_ok c -> size_ok s -> with_center_fits c s /\ offset_fits (tl (with_center c s)) s) /\
+  (forall img a, img_ok img -> inside (ir_size img) a -> direct_area_fits img a).
+Proof.
+  split; [exact rect_ok_area_fits|]. split; [exact point_ok_offset_fits|].
+  split; [exact point_ok_with_center_fits|exact inside_direct_area_fits].
+Qed.
+
 Theorem C09_d_pixel_none_iff : forall d p,
   d_wf d -> (d_pixel d p = None <-> contains (d_box d) p = false).
 Proof. exact d_pixel_none_iff. Qed.
@@ -74,23 +109,25 @@ Theorem C09_stream_is_pixels : forall d,
   (d_draw d = [] /\ is_zero_sized (d_box d) = true).
 Proof. exact d_draw_spec. Qed.
 
-Theorem C09_sub_image_wf : forall d area, d_wf d -> size_nonneg area -> d_wf (sub_image d area).
-Proof. exact sub_image_wf. Qed.
+Theorem C09_sub_image_wf : forall d area, d_wf d -> area_fits area -> d_wf (sub_image d area).
+Proof. exact sub_image_wf_fits. Qed.
 
 (* sub_image(area) = image made of the parent's pixels inside area intersected with the parent box *)
 Theorem C09_sub_image_spec : forall d area o bb q,
-  d_wf d -> size_nonneg area -> point_ok o ->
+  d_wf d -> area_fits area ->
   let a' := intersection (d_box d) area in
+  is_zero_sized a' = true \/ offset_fits o (sz a') ->
   d_wf (sub_image d area) /\
   d_size (sub_image d area) = sz a' /\
   (forall x, contains a' x = contains (d_box d) x && contains area x) /\
   render bb (image_draw (Img (sub_image d area) o)) q =
     (let x := padd (psub q o) (tl a') in
      if contains bb q && contains a' x then d_pixel d x else None).
-Proof. exact sub_image_spec. Qed.
+Proof. exact sub_image_spec_fits. Qed.
 
+(* nested sub images compose; the composed area is again in range *)
 Theorem C09_sub_sub_compose : forall d a1 a2,
-  d_wf d -> size_nonneg a1 -> size_nonneg a2 ->
+  d_wf d -> area_fits a1 -> area_fits a2 ->
   let s1 := sub_image d a1 in
   let a1' := intersection (d_box d) a1 in
   let a2' := intersection (d_box s1) a2 in
@@ -100,10 +137,27 @@ Theorem C09_sub_sub_compose : forall d a1 a2,
   (is_zero_sized a2' = true ->
      is_zero_sized (d_box (sub_image s1 a2)) = true /\ is_zero_sized (d_box (sub_image d a12)) = true) /\
   (is_zero_sized a2' = false ->
+     area_fits a12 /\
      d_size (sub_image s1 a2) = d_size (sub_image d a12) /\
      forall x, contains a12 x =
                contains (d_box d) x && contains a1 x && contains (translate_rect a2 (tl a1')) x).
-Proof. exact sub_sub_compose. Qed.
+Proof. exact sub_sub_compose_fits. Qed.
+
+(* ImageDrawable::draw_sub_image called directly on an ImageRaw: draws the area iff it lies inside, under the
+   exact no-overflow condition of the two u32 sums *)
+Theorem C09_draw_sub_image_direct : forall img a,
+  img_ok img -> direct_area_fits img a ->
+  (inside (ir_size img) a ->
+     raw_draw_sub_image img a =
+     [FillContiguous (origin_box (sz a)) (area_stream img (px (tl a)) (py (tl a)) (sw (sz a)) (sh (sz a)))]) /\
+  (~ inside (ir_size img) a -> raw_draw_sub_image img a = []).
+Proof. exact draw_sub_image_direct. Qed.
+
+(* ... and directly on a SubImage of any depth: the area is re-based to the ROOT image and judged there (so an area
+   outside the SubImage's own box but inside the root shows root pixels; `sub_image()` never produces such a call) *)
+Theorem C09_draw_sub_image_direct_nested : forall d a,
+  d_draw_sub_image d a = raw_draw_sub_image (d_root d) (translate_rect a (d_origin d)).
+Proof. exact d_draw_sub_image_root. Qed.
 
 (* whatever the nesting depth, a drawable shows the root ImageRaw's pixel() at the accumulated offset, and only
    points inside the root's box *)
@@ -114,7 +168,7 @@ Theorem C09_d_pixel_root : forall d p,
 Proof. exact d_pixel_root. Qed.
 
 Theorem C09_with_center_spec : forall d c,
-  0 <= sw (d_size d) -> 0 <= sh (d_size d) ->
+  0 <= sw (d_size d) -> 0 <= sh (d_size d) -> with_center_fits c (d_size d) ->
   let i := image_with_center d c in
   image_box i = with_center c (d_size d) /\
   sz (image_box i) = d_size d /\
@@ -123,7 +177,22 @@ Theorem C09_with_center_spec : forall d c,
   (forall br, bottom_right (image_box i) = Some br ->
      0 <= px (tl (image_box i)) + px br - 2 * px c <= 1 /\
      0 <= py (tl (image_box i)) + py br - 2 * py c <= 1).
-Proof. exact with_center_spec. Qed.
+Proof. exact with_center_spec_fits. Qed.
+
+(* the pixel map of Image::with_center(d, c): d's pixels with the image's centre pixel m = ((w-1)/2, (h-1)/2)
+   on c; in particular c itself shows pixel(m) *)
+Theorem C09_with_center_draw_spec : forall d c bb q,
+  d_wf d ->
+  is_zero_sized (d_box d) = true \/
+    (with_center_fits c (d_size d) /\ offset_fits (tl (with_center c (d_size d))) (d_size d)) ->
+  let o := tl (with_center c (d_size d)) in
+  let m := P (Z.max (sw (d_size d) - 1) 0 / 2) (Z.max (sh (d_size d) - 1) 0 / 2) in
+  o = psub c m /\
+  render bb (image_draw (image_with_center d c)) q =
+    (if contains bb q && contains (with_center c (d_size d)) q then d_pixel d (padd (psub q c) m) else None) /\
+  (is_zero_sized (d_box d) = false -> contains bb c = true ->
+     render bb (image_draw (image_with_center d c)) c = d_pixel d m /\ d_pixel d m <> None).
+Proof. exact with_center_draw_spec. Qed.
 
 (* non-vacuity: a 3x2 image with 1 bit per pixel (rows padded to one byte each), its sub image (1,0) 2x2 drawn
    at (5,5): the hypotheses hold and the functions compute the data's pixels *)
@@ -141,4 +210,25 @@ Proof.
   - apply sub_image_wf; [|unfold size_nonneg; cbn; lia].
     unfold d_wf, img_ok, bpp_ok, size_ok, bound. cbn. repeat split; try lia; tauto.
   - vm_compute. repeat split; reflexivity.
+Qed.
+
+(* non-vacuity of the range conditions: they hold on the boundary, fail just beyond it, and with_center draws *)
+Example C09_nonvacuous_ranges :
+  let img := IR [160; 64] (S 3 2) 1 false in
+  area_fits (R (P 1 0) (S 2147483646 2)) /\
+  ~ area_fits (R (P 1 0) (S 2147483647 2)) /\
+  ~ area_fits (R (P 0 0) (S 4294967295 4294967295)) /\
+  area_fits (R (P 7 7) (S 0 4294967295)) /\
+  d_size (sub_image (Raw img) (R (P 1 0) (S 2147483646 2))) = S 2 2 /\
+  ~ direct_area_fits img (R (P 1 0) (S 4294967295 1)) /\
+  with_center_fits (P 5 5) (S 3 2) /\ offset_fits (tl (with_center (P 5 5) (S 3 2))) (S 3 2) /\
+  image_draw (image_with_center (Raw img) (P 5 5)) = [FillContiguous (R (P 4 5) (S 3 2)) [1; 0; 1; 0; 1; 0]] /\
+  render (R (P 0 0) (S 9 9)) (image_draw (image_with_center (Raw img) (P 5 5))) (P 5 5) = Some 0 /\
+  raw_pixel img (P 1 0) = Some 0.
+Proof.
+  cbv zeta. unfold area_fits, direct_area_fits, with_center_fits, offset_fits, is_zero_sized, i32_max, i32_min, u32_max.
+  cbn [tl sz px py sw sh ir_size].
+  repeat match goal with |- _ /\ _ => split end;
+    try (vm_compute; reflexivity); try lia; try (intros H; lia);
+    try (vm_compute; intros H; discriminate H).
 Qed.
